@@ -101,9 +101,10 @@ Theorem C01_deep_structure : forall nodes output flags out oo omap,
     znth omap output = Ok oo.
 Proof. exact compile_graph_structure. Qed.
 
-(* Correctness on the elementwise + share-wise unary fragment ([thm_frag]: Input, Constant, Zeros,
-   Ones, Add, Subtract, Multiply, Sum, CumSum, PermuteAxes, Get, GetSlice, Reshape over
-   arrays/scalars): for every such program, every is_input_private vector, EVERY resharing plan the
+(* Correctness on the additive/bilinear fragment ([thm_frag]: Input, Constant, Zeros, Ones, Add,
+   Subtract, the bilinear operations Multiply, Dot, Matmul, Gemm (abstract bi-additive maps [bil]
+   except Multiply, the ring product) and the share-wise lifted unary operations Sum, CumSum,
+   PermuteAxes, Get, GetSlice, Reshape (abstract additive maps [lin]), over arrays/scalars): for every such program, every is_input_private vector, EVERY resharing plan the
    compiler accepts (the proof never looks at the planner), every commutative ring, all inputs, all
    presentations of the private inputs as three shares, all PRF values ([atom]) and all keys:
    if the source graph evaluates, the compiled graph evaluates, and for every source node j the
@@ -114,6 +115,8 @@ Theorem C01_deep_compile_correct_partial :
   ring_theory r0 r1 radd rmul rsub ropp eq ->
   forall (atom : Z -> R) (catom : value -> R) (one : R) (lin : op -> R -> R) (bil : op -> R -> R -> R),
   (forall o a b, lin o (radd a b) = radd (lin o a) (lin o b)) ->
+  (forall o a a' b, bil o (radd a a') b = radd (bil o a b) (bil o a' b)) ->
+  (forall o a b b', bil o a (radd b b') = radd (bil o a b) (bil o a b')) ->
   forall nodes output flags out oo omap priv use_mul,
   compile_graph_map nodes output flags = Ok (out, oo, omap) ->
   propagate_private_annotations nodes flags = Ok (priv, use_mul) ->
@@ -133,6 +136,8 @@ Theorem C01_deep_output_correct_partial :
   ring_theory r0 r1 radd rmul rsub ropp eq ->
   forall (atom : Z -> R) (catom : value -> R) (one : R) (lin : op -> R -> R) (bil : op -> R -> R -> R),
   (forall o a b, lin o (radd a b) = radd (lin o a) (lin o b)) ->
+  (forall o a a' b, bil o (radd a a') b = radd (bil o a b) (bil o a' b)) ->
+  (forall o a b b', bil o a (radd b b') = radd (bil o a b) (bil o a b')) ->
   forall nodes output flags out oo priv use_mul,
   compile_graph nodes output flags = Ok (out, oo) ->
   propagate_private_annotations nodes flags = Ok (priv, use_mul) ->
@@ -146,12 +151,12 @@ Theorem C01_deep_output_correct_partial :
     znth env_c oo = Ok vc /\
     (if mem output priv then reveal3 R radd vc = Some v else vc = RLeaf R v).
 Proof.
-  intros R r0 r1 radd rmul rsub ropp Rth atom catom one lin bil Hlin nodes output flags out oo priv um H Hp Hf
+  intros R r0 r1 radd rmul rsub ropp Rth atom catom one lin bil Hlin Hbl Hbr nodes output flags out oo priv um H Hp Hf
          ins_s ins_c env_s v kv0 kv1 kv2 Hs Hv Hin.
   unfold compile_graph in H. destruct (compile_graph_map nodes output flags) as [[[o1 oo1] omap]| | |] eqn:Hm; try discriminate.
   cbn in H. inversion H; subst o1 oo1.
   destruct (compile_graph_structure _ _ _ _ _ _ Hm) as (p' & u' & Hp' & _ & _ & _ & _ & _ & Hoo).
-  destruct (compile_graph_correct R r0 r1 radd rmul rsub ropp Rth atom catom one lin bil Hlin _ _ _ _ _ _ _ _ Hm Hp Hf
+  destruct (compile_graph_correct R r0 r1 radd rmul rsub ropp Rth atom catom one lin bil Hlin Hbl Hbr _ _ _ _ _ _ _ _ Hm Hp Hf
               _ _ _ kv0 kv1 kv2 Hs Hin) as (env_c & Hev & Hall).
   destruct (Hall _ _ Hv) as (k & vc & Hk & Hvc & Hrel). rewrite Hoo in Hk. inversion Hk; subst k.
   exists env_c, vc. split; [exact Hev|]. split; [exact Hvc|].
@@ -218,7 +223,7 @@ Example C01_deep_example_applies :
 Proof.
   destruct (compile_graph ex_src 5 ex_flags) as [[out oo]| | |] eqn:Hc; try (vm_compute in Hc; discriminate).
   destruct (C01_deep_output_correct_partial Z 0 1 Z.add Z.mul Z.sub Z.opp InitialRing.Zth ex_atom (fun _ => 0) 1 ex_lin (fun _ _ _ => 0)
-              (fun _ _ _ => eq_refl) ex_src 5 ex_flags out oo [5; 4; 3; 1; 0] true Hc)
+              (fun _ _ _ => eq_refl) (fun _ _ _ _ => eq_refl) (fun _ _ _ _ => eq_refl) ex_src 5 ex_flags out oo [5; 4; 3; 1; 0] true Hc)
     with (ins_s := [RLeaf Z 6; RLeaf Z 60; RLeaf Z 5]) (ins_c := [T3 Z 1 2 3; T3 Z 10 20 30; RLeaf Z 5])
          (env_s := [RLeaf Z 6; RLeaf Z 60; RLeaf Z 5; RLeaf Z 360; RLeaf Z 365; RLeaf Z 365]) (v := 365)
          (kv0 := RKey Z) (kv1 := RKey Z) (kv2 := RKey Z)
